@@ -98,6 +98,9 @@ class World:
                     if spec.cls(o) not in seen:
                         seen.add(spec.cls(o))
                         ops.append(('new', o))
+            elif k == 'new2':
+                if len(unused) >= 2:
+                    ops.append(('new2', unused[0], unused[1]))
             elif k == 'mod':
                 ops += [('mod', o) for o in live]
             elif k == 'mod2':
@@ -207,6 +210,9 @@ class World:
         self.tick()
         if k == 'new':
             return self.txn([('store', O(op[1]), Z64, self.rec(spec, op[1]))])
+        if k == 'new2':
+            return self.txn([('store', O(op[1]), Z64, self.rec(spec, op[1])),
+                             ('store', O(op[2]), Z64, self.rec(spec, op[2]))])
         if k == 'bignew':
             return self.txn([('store', O(op[1]), Z64,
                               self.rec(spec, op[1], pad=9000))])
